@@ -28,7 +28,8 @@ MACROS = {
     'string2': r"'([^\n\r\f\\']|\\{nl}|{escape})*'",
     'invalid1': r'\"([^\n\r\f\\"]|\\{nl}|{escape})*',
     'invalid2': r"\'([^\n\r\f\\']|\\{nl}|{escape})*",
-    'comment': r'\/\*[^*]*\*+([^/][^*]*\*+)*\/',
+    # (unambiguous: a run of '*' is taken as a whole)
+    'comment': r'\/\*[^*]*\*+([^/*][^*]*\*+)*\/',
     'ident': r'[-]{0,2}{nmstart}{nmchar}*',
     'name': r'{nmchar}+',
     # TODO???
@@ -36,7 +37,9 @@ MACROS = {
     'string': r'{string1}|{string2}',
     # from CSS2.1
     'invalid': r'{invalid1}|{invalid2}',
-    'url': r'[\x09\x21\x23-\x26\x28\x2a-\x7E]|{nonascii}|{escape}',
+    # (unambiguous: a backslash is part of an escape wherever it can be)
+    'url': r'[\x09\x21\x23-\x26\x28\x2a-\x5b\x5d-\x7E]|{nonascii}'
+    r'|\\(?=[\n\r\f)])|{escape}',
     's': r'\t|\r|\n|\f|\x20',
     'w': r'{s}*',
     'nl': r'\n|\r\n|\r|\f',
